@@ -204,6 +204,7 @@ def extra(ctx):
     n_ok = 0
     for (ln, o), c, m in zip(origin, certs, mo):
         if m.strip() == '1': n_ok += 1
+        elif vlib.timed_out(ctx, m): pass
         else: bad.append((ln, o, 'model rejects the certificate (%s): %s' % (c.split()[1], m[:60])))
     ctx.extra_cov['mpf_stream_certificates'] = n_ok
     ev = getattr(ctx, 'extra_violations', [])
